@@ -106,10 +106,12 @@ class SwitchWriteHandler(AbstractWriteHandler):
                             continue
                         # If this will be visited multiple times, we need a label
                         if e in edges_that_will_be_visited_multiple_times and e not in already_printed_edges:
-                            self.decompiler.write_stmnt(f"@switch{m.switch_id}_{e.index};")
+                            self.decompiler.write_stmnt(f"@switch{op.offset}_{e.index};")
                         if e in already_printed_edges:
                             # Write the label jump instead
-                            self.decompiler.write_stmnt(f"jump @switch{m.switch_id}_{e.index};")
+                            # (Labels are known in the whole file, switch ids and edge numbers only in their routine: the
+                            # offset of the switch op tells the switches of different routines apart.)
+                            self.decompiler.write_stmnt(f"jump @switch{op.offset}_{e.index};")
                         else:
                             already_printed_edges.add(e)
                             # Print a switch case branch
